@@ -129,6 +129,21 @@ def run(chk, repo, tier):
     fbas = repo.func('zernike.zernike_basis')
     _, paths, _ = analyse(repo, fbas)
     ok, det = False, 'no store basis[i] = zernike(mask, modes[i], ...) found'
+    oks = []
+
+    def is_modes(a):
+        """`modes` itself, or `modes` lifted to one dimension (modes[..., None], atleast_1d, [modes])"""
+        v = nf.strip_apps(Poly.atom(a), ('asarray', 'atleast_1d', 'copy', 'cast', 'array'))
+        if v == S('modes'):
+            return True
+        va = v.single_atom() if isinstance(v, Poly) else None
+        if va is not None and va[0] == 'idx' and Poly.atom(va[1]) == S('modes'):
+            items = va[2].items if isinstance(va[2], Tup) else (va[2],)
+            return all(i in (NONE, nf.ELLIPSIS) or (isinstance(i, nf.Slice) and i.lo in (NONE, None) and i.hi in (NONE, None))
+                       for i in items)
+        if va is not None and va[0] == 'val' and isinstance(va[1], Tup) and len(va[1]) == 1:
+            return va[1].items[0] == S('modes')
+        return False
     for p in returns(paths):
         for e in p.writes():
             if e.data.get('how') == 'setitem' and e.in_loop:
@@ -143,8 +158,15 @@ def run(chk, repo, tier):
                 ma = mode.single_atom() if isinstance(mode, Poly) else None
                 ok = ma is not None and ma[0] == 'idx' and ma[2] == kitem and b.get('mask') == S('mask') \
                     and b.get('normalize') == S('normalize') and b.get('rho') == S('rho') and b.get('theta') == S('theta')
-                det = f'basis[{fmt(key)}] = zernike(index={fmt(mode)}, normalize={fmt(b.get("normalize"))}, ' \
-                      f'rho={fmt(b.get("rho"))}, theta={fmt(b.get("theta"))})'
+                det_p = f'basis[{fmt(key)}] = zernike(index={fmt(mode)}, normalize={fmt(b.get("normalize"))}, ' \
+                        f'rho={fmt(b.get("rho"))}, theta={fmt(b.get("theta"))})'
+                if ok and not is_modes(ma[1]):
+                    # the sequence that is walked is not the requested list: a bare integer k means the mode k, not 1..k
+                    ok = False
+                    det_p += f' - the modes walked are {fmt(Poly.atom(ma[1]))[:60]}, not the requested ones [{conds_str(p)[:60]}]'
+                oks.append(ok)
+                det = det_p if (not ok or not det or det.startswith('no store')) else det
+    ok = bool(oks) and all(oks)
     chk.ob('C12-d', 'N-index', fbas.key, 'row i of the basis is mode modes[i]', ok, det, fbas.loc())
 
     ffit = repo.func('zernike.zernike_fit')
